@@ -63,6 +63,26 @@ def build_cli():
     return time.time() - t
 
 
+def tie_broken(pid, what, detail):
+    """The correspondence cannot even be set up against the current source (the harness, which calls the crate's internal
+    API, does not compile any more, or a decision table it re-reads has changed shape) while the crate itself builds: the
+    property is no longer shown to hold on this tree.  Reported as a violation without a failing input; returns the exit
+    status.  A tree that does not build at all is a machinery error instead (exit 2)."""
+    try:
+        build_cli()
+    except BuildFailed as e:
+        print("ERROR: /repo does not build: %s" % str(e)[-1500:])
+        return 2
+    p = write_replay(pid, {"correspondence": {"broken_at": what, "detail": str(detail)[-3000:]},
+                           "note": "the crate builds, the correspondence harness / table extraction does not: the tie between model and code is broken"})
+    write_evidence(pid, os.environ.get("VERIF_TIER", "quick"), int(os.environ.get("VERIF_SEED", "1")), "proof",
+                   {"evaluations": 0, "distinct_nontrivial": 0, "obligations": 0, "discharged": 0, "samples": [],
+                    "rule": "nothing was explored: the correspondence could not be set up (%s)" % what,
+                    "explanation": str(detail)[-600:], "checker_cmd": "", "trusted_base": []}, [], 0.0, 1)
+    print("VIOLATION property=%s replay=%s no-failing-input-found" % (pid, os.path.relpath(p, ROOT)))
+    return 1
+
+
 def lake_build(targets):
     """Returns (ok, output).  A failure here is a broken proof obligation (or a broken model)."""
     rc, out = sh(["lake", "build"] + targets, cwd=LEAN, timeout=3600)
